@@ -166,9 +166,11 @@ def classify_import_error(msg, api):
     exc, text, line = m.group(1), m.group(2), m.group(3)
 
     def gen_name(mm):
-        w = mm.group(0)
-        return 'Q' if w.strip("'") in names or w.strip("'").replace('_validator', '') in names else w
-    text = re.sub(r"'[A-Za-z_0-9]+'", gen_name, text)
+        w = mm.group(0).strip("'")
+        if re.fullmatch(r'[A-Za-z_][A-Za-z_0-9]*', w) and w not in names and w.replace('_validator', '') not in names:
+            return "'%s'" % w        # a non-generated identifier (TagRef, datetime, ...) is part of the root cause
+        return 'Q'
+    text = re.sub(r"'[^']*'", gen_name, text)
     text = re.sub(r'\d+', 'N', text)
     text = re.sub(r'\([^)]*\.py, line N\)', '', text)
     return '%s:%s' % (exc, text[:70])
